@@ -470,7 +470,7 @@ def run_unit(unit):
             nb = 1 if tier == 'quick' else 2
             first = all_legs(ch, nb)[unit[2]:unit[3]]
             base = all_legs(ch, nb)
-            others = [base, base[::2] if tier == 'quick' else base[::3]]
+            others = [base, base[::2]] if tier == 'quick' else [base[::3], base[::5]]
         for s0 in first:
             for rest in itertools.product(*others):
                 specs = (s0,) + tuple(rest)
